@@ -2,8 +2,11 @@
 
 mod alloc;
 mod bfs;
+mod containers;
+mod containers_gen;
 mod crash;
 mod explore;
+mod fwd;
 mod grid;
 mod json;
 mod lens;
@@ -379,6 +382,73 @@ fn main() {
                 std::process::exit(2);
             }
             std::process::exit(if r.violations.is_empty() { 0 } else { 1 });
+        },
+        "fwd" => {
+            let t0 = std::time::Instant::now();
+            alloc::init_thread();
+            #[cfg(feature = "auto")]
+            let _ = rust_cc::config::config(|c| c.set_auto_collect(false));
+            let (st, vs) = fwd::run();
+            let found: Vec<J> = vs.iter().take(10).map(|v| J::obj(vec![("history", J::s("")), ("history_pretty", J::s(&v.msg)), ("epilogue", J::s("")), ("epilogue_pretty", J::s("")), ("violations", J::Arr(vec![viol_json(v)]))])).collect();
+            let out = J::obj(vec![
+                ("lens", J::s("fwd")),
+                ("build", J::s(&build_cfg_name())),
+                ("states", J::n(st.pairs as f64)),
+                ("transitions", J::n(st.evaluations as f64)),
+                ("executions", J::n(st.evaluations as f64)),
+                ("distinct_outcomes", J::n(st.distinct_outcomes.len() as f64)),
+                ("max_depth_completed", J::n(1.0)),
+                ("fixpoint", J::Bool(true)),
+                ("cut_reason", J::Null),
+                ("samples", J::Arr(st.samples.iter().map(|s| J::s(s)).collect())),
+                ("vacuity", J::obj(vec![("distinct_outcomes", J::n(st.distinct_outcomes.len() as f64))])),
+                ("machinery_errors", J::Arr(vec![])),
+                ("found", J::Arr(found)),
+                ("lens_args", J::s("fwd")),
+                ("wall_s", J::n(t0.elapsed().as_secs_f64())),
+            ]);
+            emit(&m, &out, vs.is_empty());
+        },
+        "probes" => {
+            let t0 = std::time::Instant::now();
+            alloc::init_thread();
+            #[cfg(feature = "auto")]
+            let _ = rust_cc::config::config(|c| c.set_auto_collect(false));
+            let r = std::panic::catch_unwind(containers::run);
+            let (st, vs) = match r {
+                Ok(x) => x,
+                Err(p) => {
+                    let msg = p.downcast_ref::<&'static str>().map(|s| s.to_string()).or_else(|| p.downcast_ref::<String>().cloned()).unwrap_or_default();
+                    (containers::ProbeStats { instances: 0, trace_invocations: 0, probes: 0, samples: vec![] }, vec![world::Violation { prop: "ANY", pred: "P-nopanic", msg: format!("unexpected panic in the probe grid: {}", msg) }])
+                },
+            };
+            let found: Vec<J> = vs.iter().take(10).map(|v| J::obj(vec![("history", J::s("")), ("history_pretty", J::s(&v.msg)), ("epilogue", J::s("")), ("epilogue_pretty", J::s("")), ("violations", J::Arr(vec![viol_json(v)]))])).collect();
+            let out = J::obj(vec![
+                ("lens", J::s("probes")),
+                ("build", J::s(&build_cfg_name())),
+                ("states", J::n(st.instances as f64)),
+                ("transitions", J::n(st.trace_invocations as f64)),
+                ("executions", J::n(st.instances as f64)),
+                ("max_depth_completed", J::n(1.0)),
+                ("fixpoint", J::Bool(true)),
+                ("cut_reason", J::Null),
+                ("samples", J::Arr(st.samples.iter().map(|s| J::s(s)).collect())),
+                ("vacuity", J::obj(vec![("container_instances", J::n(st.instances as f64)), ("probes", J::n(st.probes as f64)), ("trace_invocations", J::n(st.trace_invocations as f64))])),
+                ("machinery_errors", J::Arr(vs.iter().filter(|v| v.prop == "MACHINERY").map(|v| J::s(&v.msg)).collect())),
+                ("found", J::Arr(found)),
+                ("lens_args", J::s("probes")),
+                ("wall_s", J::n(t0.elapsed().as_secs_f64())),
+            ]);
+            emit(&m, &out, vs.is_empty());
+        },
+        "containers" => {
+            let getf = |k: &str, d: f64| -> f64 { m.get(k).map_or(d, |v| v.parse().expect("bad number")) };
+            let all = containers_gen::cases();
+            let full = m.get("set").map_or(false, |s| s == "full");
+            let only = m.get("case").cloned();
+            let cases: Vec<(String, fn() -> Box<dyn mini::TypedWorld>)> = all.iter().filter(|c| only.as_ref().map_or(full || c.1, |o| c.0 == o)).map(|c| (c.0.to_string(), c.2)).collect();
+            let cfg = mini::MiniCfg { nobj: getf("n", 2.0) as usize, depth: getf("depth", 5.0) as usize, weak_ops: false, cyclic_ops: false, prop_override: Some("C17") };
+            mini_main("containers", &m, cases, cfg, getf("threads", 16.0) as usize);
         },
         "grid" => {
             let getf = |k: &str, d: f64| -> f64 { m.get(k).map_or(d, |v| v.parse().expect("bad number")) };
